@@ -75,6 +75,7 @@ pub struct ListenWorld {
     unfinished_at_last_tick: Vec<usize>,
     last_event_was_tick: bool,
     returned_checked: bool,
+    finished_seen: usize,
     expected: Vec<Vec<u8>>,
     expected_closed: Vec<bool>,
     pub events: Vec<String>,
@@ -141,6 +142,15 @@ impl World for ListenWorld {
             self.accepted.push(c);
             self.clock_last_accept = st.clock_ms;
             self.progress(format!("accept{}", c));
+        }
+    }
+    fn observe(&mut self, st: &St) {
+        // a connection that has just been served to completion is progress: the idle period is
+        // judged from here on (ticks that passed while it was still being served do not count)
+        let fin = self.accepted.iter().filter(|c| finished(st, **c)).count();
+        if fin != self.finished_seen {
+            self.finished_seen = fin;
+            self.ticks_since_progress = 0;
         }
     }
     fn env_enabled(&self, st: &St) -> Vec<EnvAct> {
@@ -292,7 +302,9 @@ impl World for ListenWorld {
             }
             let got = &st.pipes[c].to_client;
             let want = &self.expected[c];
-            let complete = self.delivered[c] == spec.chunks.len();
+            // in the stopping scenarios a connection may legitimately still be queued behind the worker limit
+            let served = finished(st, c) || o.result.is_some();
+            let complete = self.delivered[c] == spec.chunks.len() && (self.spec.mode != Mode::Stopping || served);
             if complete {
                 if got != want {
                     return Some((
@@ -406,6 +418,7 @@ pub fn build_listen(spec: ListenSpec) -> impl Fn(&Sched) -> Scenario {
             unfinished_at_last_tick: vec![],
             last_event_was_tick: false,
             returned_checked: false,
+            finished_seen: 0,
             expected: expected.iter().map(|e| e.0.clone()).collect(),
             expected_closed: expected.iter().map(|e| e.1).collect(),
             events: vec![],
